@@ -5,7 +5,10 @@ import itertools
 from common import Result, ask, rng_for, known_findings
 
 ASSUMPTIONS = [
-    "terms are compared by name (':'-joined component names); generated atoms have distinct names",
+    "terms are compared by name (':'-joined component names); generated atoms have distinct names "
+    "(call atoms that differ only in a keyword value or a literal argument print differently and are "
+    "different components: Model/Resolver.lean keys a call by callee, positional arguments and the "
+    "keyword->value dict)",
     "numeric literals are small plain decimals (str(float) without exponent form)",
     "in-place mutation of Model objects is unobservable through Resolver (each value consumed once): "
     "checked by this correspondence, not assumed",
@@ -14,6 +17,27 @@ TRUSTED = ["CPython operator dispatch (NotImplemented -> TypeError), list.remove
            "itertools.product/combinations are modelled by hand in Model/Terms.lean"]
 
 LEAVES = ["a", "b", "c", "f(x)", "f(x, 2)", "0", "1", "-1", "2"]
+# call atoms that are pairwise DIFFERENT components although they share the callee and the first
+# argument: they differ only in the value of one keyword argument, only in a literal positional
+# argument, only in the keyword's name, or only in the presence of a second keyword. Term identity
+# (Term.components / LazyCall.__eq__) must keep them apart in unions, differences and the collapsing
+# of repeated factors, and must still merge two occurrences of the same one.
+CALL_LEAVES = ["a", "f(x, k=1)", "f(x, k=2)", "f(x, 1)", "f(x, 2)", "f(x, j=1)", "f(x, k=1, j=1)"]
+# the same idea for the random deeper trees: families of look-alike call atoms (keyword value a
+# number / string / bool / None / nested call / arithmetic, several keywords, positional literal)
+CALL_FAMILIES = [
+    ["f(x, k=1)", "f(x, k=2)", "f(x, k=3)"],
+    ["f(x, 2)", "f(x, 3)", "f(x, 2, 3)"],
+    ["f(x, k='u')", "f(x, k='w')", "f(x, k=\"u\")"],
+    ["f(x, k=True)", "f(x, k=False)", "f(x, k=None)"],
+    ["f(x, k=2, j=1)", "f(x, k=2, j=5)", "f(x, k=5, j=1)"],
+    ["f(x, k=g(z))", "f(x, k=g(w))", "f(x, k=h(z))"],
+    ["f(x, k=z + 1)", "f(x, k=z + 2)", "f(x, k=z - 1)"],
+    ["np.clip(x, a_min=0)", "np.clip(x, a_min=1)", "np.clip(x, a_max=1)"],
+    ["scale(x, center=True)", "scale(x, center=False)", "scale(x)"],
+    ["f(x, 'u')", "f(x, 'w')", "f(z, 'u')"],
+    ["{x + 1}", "{x + 2}", "I(x + 1)"],
+]
 OPS = ["+", "-", ":", "*", "/", "**", "|"]
 PREC = {"|": 0, "+": 2, "-": 2, "*": 3, "/": 3, ":": 4, "**": 5}
 CORPUS = ["y ~ (a + b) * (b + a)", "y ~ (a + b) / (c:d + e)", "y ~ f(g(x)) + f(x)",
@@ -81,8 +105,12 @@ def impl(s):
 
 def explore(tier, seed, res=None, replay=None):
     res = res or Result()
-    res.rule = ("operator trees over {a,b,c,f(x),f(x, 2),0,1,-1,2} x {+,-,:,*,/,**,|} rendered with "
-                "minimal parentheses, all trees up to a leaf bound plus random deeper ones; "
+    res.rule = ("operator trees over {a,b,c,f(x),f(x, 2),0,1,-1,2} x {+,-,:,*,/,**,|} and over the "
+                "look-alike call atoms {a,f(x, k=1),f(x, k=2),f(x, 1),f(x, 2),f(x, j=1),f(x, k=1, j=1)} "
+                "(calls differing only in a keyword value / a literal argument / a keyword name) "
+                "rendered with minimal parentheses, all trees up to a leaf bound plus random deeper "
+                "ones (general alphabet, and families of call atoms differing only in one keyword "
+                "value or literal: numbers, strings, bools, None, nested calls, arithmetic); "
                 "non-trivial = parses and lies in the documented language (Spec.C02.Lang); distinct "
                 "by rendered string")
     forms = []
@@ -109,7 +137,19 @@ def explore(tier, seed, res=None, replay=None):
                 if s not in seen:
                     seen.add(s)
                     forms.append(s)
+        # look-alike call atoms: all trees up to three leaves over CALL_LEAVES
+        for n in range(2, nmax + 1):
+            for t in trees(n, CALL_LEAVES):
+                s = "y ~ " + render(t)
+                if s not in seen:
+                    seen.add(s)
+                    forms.append(s)
         if tier == "thorough":
+            for t in trees(4, ["a", "f(x, k=1)", "f(x, k=2)", "f(x, 2)", "1"]):
+                s = "y ~ " + render(t)
+                if s not in seen:
+                    seen.add(s)
+                    forms.append(s)
             for t in trees(4, ["a", "b", "f(x, 2)", "0", "1"]):
                 s = "y ~ " + render(t)
                 if s not in seen:
@@ -121,8 +161,17 @@ def explore(tier, seed, res=None, replay=None):
                "f(x, k=2)", "0", "1", "-1", "2", "a", "b", "g"]
         n_rand = 5000 if tier == "quick" else 200000
         max_leaves = 9 if tier == "quick" else 14
-        for _ in range(n_rand):
-            t = rand_tree(rng, rng.randrange(2, max_leaves + 1), big)
+        n_fam = 2500 if tier == "quick" else 100000
+        for i in range(n_rand + n_fam):
+            if i < n_rand:
+                alphabet = big
+            else:
+                # one or two families of look-alike call atoms, each member repeated so that two
+                # members of one family (or the same member twice) meet in most trees
+                fams = rng.sample(CALL_FAMILIES, rng.choice([1, 1, 2]))
+                alphabet = [x for fam in fams for x in fam] * 2 + rng.sample(
+                    ["a", "b", "g", "h", "0", "1", "-1", "2"], 4)
+            t = rand_tree(rng, rng.randrange(2, max_leaves + 1), alphabet)
             lhs = rng.choice(["y ~ ", "y ~ ", "y ~ ", "", "y[a] ~ ", "p(y, n) ~ ", "y ~ 0 + ",
                               "y ~ -1 + "])
             s = lhs + render(t)
